@@ -3,6 +3,7 @@ package engine
 import (
 	"fmt"
 	"iter"
+	"sync/atomic"
 
 	"github.com/ucan-wg/go-ucan/verifshim/sched"
 )
@@ -103,6 +104,12 @@ func RunThreads(env *Env, bodies []func(seam ThreadSeam)) *Sched {
 	}
 }
 
+// Tolerant makes ExploreSchedules survive replay divergences (counted in Divergences).
+var Tolerant bool
+
+// Divergences counts tolerated replay divergences.
+var Divergences atomic.Int64
+
 // ExploreSchedules enumerates all schedules with at most bound preemptions.
 func ExploreSchedules(bound int, maxExec int, bodies func() []func(seam ThreadSeam), visit func(env *Env, s *Sched)) (int, bool, error) {
 	count := 0
@@ -116,13 +123,23 @@ func ExploreSchedules(bound int, maxExec int, bodies func() []func(seam ThreadSe
 		env := &Env{Prefix: prefix}
 		s := RunThreads(env, bodies())
 		count++
-		if env.Diverged {
-			return fmt.Errorf("schedule replay diverged for prefix %v", prefix)
-		}
+		diverged := env.Diverged
 		for i := range prefix {
-			if env.Taken[i] != prefix[i] {
-				return fmt.Errorf("schedule replay diverged for prefix %v: took %v", prefix, env.Taken)
+			if i >= len(env.Taken) || env.Taken[i] != prefix[i] {
+				diverged = true
 			}
+		}
+		if diverged {
+			// The same choices did not lead to the same choice points: the code under test keeps state
+			// across executions (a cache filled by an earlier schedule). With Tolerant set the execution
+			// is still judged - it is a legal schedule of the real code - but the enumeration is no longer
+			// claimed to be exhaustive; otherwise it is a hard error.
+			if !Tolerant {
+				return fmt.Errorf("schedule replay diverged for prefix %v", prefix)
+			}
+			Divergences.Add(1)
+			visit(env, s)
+			return nil
 		}
 		visit(env, s)
 		// preemptions used within the prefix
